@@ -308,10 +308,13 @@ def floats(s: str):
 # known findings
 
 def load_known() -> list[dict]:
+    out = []
     p = VERIF / 'known_findings.json'
-    if not p.exists():
-        return []
-    return json.loads(p.read_text()).get('findings', [])
+    if p.exists():
+        out += json.loads(p.read_text()).get('findings', [])
+    for q in sorted((VERIF / 'known_findings.d').glob('*.json')):   # per-property fragments (merged view)
+        out += json.loads(q.read_text()).get('findings', [])
+    return out
 
 
 def open_keys(prop_id: str) -> dict:
